@@ -40,7 +40,7 @@ def shapes(tier, mode):
 def beta_menu(T, tier):
     """list of (kind, value) ; kind in int,float,np64,vec"""
     menu = []
-    for v in (0, 1, 2, 5):
+    for v in (0, 1, 2, 5, 0.5):
         menu.append(("float", float(v)))
     for v in (0, 1, 2, 5):
         menu.append(("int", int(v)))
@@ -216,6 +216,16 @@ def work(unit):
             msg = judge(kernel, tabs[b], beta, K, float(mins[b]))
             if msg:
                 acc.fail(case(mode, tabs[b], kind, value, "C"), msg)
+        if small and name == "base3" and kind == "float" and value in (1.0, 0.5):
+            # cost tables of other real dtypes (the statement says "every table"): a fractional
+            # beta with an integer table exposes accumulators that inherit the table's dtype
+            for dt in (np.int64, np.float32, np.int32):
+                for b in range(len(tabs)):
+                    acc.n += 1
+                    td = tabs[b].astype(dt)
+                    msg = judge(kernel, td, beta, K, float(mins[b]))
+                    if msg:
+                        acc.fail(case(mode, tabs[b], kind, value, "C", str(np.dtype(dt))), f"{np.dtype(dt)} table: " + msg)
         if small and kind == "float" and value in (1.0,):
             for b in range(len(tabs)):      # Fortran-ordered tables
                 acc.n += 1
@@ -231,9 +241,58 @@ def work(unit):
     return acc.result()
 
 
-def case(mode, table, kind, value, order):
+def work_long(unit):
+    """Longer sequences than brute force reaches: every 'one-hot' table (row i costs 0 for
+    cluster c_i, w elsewhere) for every c in K^T; oracle = forward DP, exact on integers, and
+    itself cross-checked against brute force for K^T <= 4096."""
+    (T, K, w, lo, hi, tier, mode) = unit
+    kernel = _kernel()
+    acc = Acc()
+    if stopped():
+        return acc.result()
+    betas = [("float", 0.0), ("float", 1.0), ("float", 2.0), ("float", 5.0),
+             ("vec", [float((3 * i) % 4) for i in range(T)]), ("vec", [5.0 if i % 3 == 0 else 0.0 for i in range(T)])]
+    idx = np.arange(lo, hi)
+    cs = np.empty((hi - lo, T), dtype=np.int64)
+    for c in range(T - 1, -1, -1):
+        cs[:, c] = idx % K
+        idx = idx // K
+    for (kind, value) in betas:
+        beta = make_beta(kind, value)
+        bvec = refs.beta_vector(beta, T)
+        for r in range(len(cs)):
+            table = np.full((T, K), float(w))
+            table[np.arange(T), cs[r]] = 0.0
+            acc.n += 1
+            want = refs.dp_min(table, bvec)
+            if K ** T <= 4096 and r % 17 == 0:
+                bf = float(refs.brute_force_min(table[None], bvec)[0])
+                if bf != want:
+                    raise HarnessError(f"reference DP {want} != brute force {bf}")
+            msg = judge(kernel, table, beta, K, want)
+            if len(set(cs[r].tolist())) > 1:
+                acc.nontrivial += 1
+            if msg:
+                acc.fail(case(mode, table, kind, value, "C"), msg)
+    if lo == 0:
+        acc.sample({"family": "one-hot", "T": T, "K": K, "w": w, "mode": mode})
+    return acc.result()
+
+
+def long_plan(tier):
+    shapes_ = [(10, 2, 3.0), (7, 3, 3.0), (6, 4, 2.0)] if tier == "quick" else \
+        [(14, 2, 3.0), (12, 2, 1.0), (9, 3, 3.0), (7, 4, 2.0), (6, 5, 2.0)]
+    units = []
+    for (T, K, w) in shapes_:
+        total = K ** T
+        for lo in range(0, total, 1500):
+            units.append((T, K, w, lo, min(total, lo + 1500)))
+    return units
+
+
+def case(mode, table, kind, value, order, dtype="float64"):
     return {"mode": mode, "table": codec.enc(np.array(table)), "beta_kind": kind,
-            "beta": value, "order": order}
+            "beta": value, "order": order, "dtype": dtype}
 
 
 # ------------------------------------------------------------------ drivers
@@ -246,9 +305,12 @@ def enumerate_mode(ctx, mode):
     for b in (1.0, 1, np.float64(1.0), np.zeros(2)):
         kernel(t, b)
         kernel(np.asfortranarray(t), b)
+    for dt in (np.int64, np.float32, np.int32):
+        kernel(t.astype(dt), 0.5)
     units = [u + (ctx.tier, mode) for u in plan(ctx.tier, mode)]
-    # big units first
-    return ctx.pmap(work, units)
+    res = ctx.pmap(work, units)
+    res += ctx.pmap(work_long, [u + (ctx.tier, mode) for u in long_plan(ctx.tier)])
+    return res
 
 
 def run(ctx):
@@ -284,11 +346,13 @@ def run(ctx):
     ctx.cov["shapes"] = {m: [list(s) for s in shapes(ctx.tier, m)] for m in ("nojit", "jit")}
     ctx.cov["rule"] = (
         "every cost table over the integer alphabets {0,1,3}, {-2,0,3}/{-2,0,1,3}, {0,1,1e12} for every "
-        "listed (T,K), x every beta in the menu (scalars 0,1,2,5 as float/int/np.float64, every vector "
+        "listed (T,K), x every beta in the menu (scalars 0,0.5,1,2,5 as float, 0,1,2,5 also as int/np.float64; int64/float32/int32 tables for T*K<=6 with beta 0.5 and 1, every vector "
         "in {0,2}^T and {0,1,5}^T); oracle = brute force over all K^T sequences, exact equality; "
         "distinct_nontrivial counts distinct (table,beta) pairs (float/vector betas, interpreted pass "
         "only) whose optimum is strictly better than every constant sequence and than the per-point "
-        "greedy sequence, i.e. where the dynamic programme has to trade assignment against switching")
+        "greedy sequence, i.e. where the dynamic programme has to trade assignment against switching; plus the "
+        "'one-hot' family for longer sequences (every c in K^T for (T,K) in {(10,2),(7,3),(6,4)}, thorough up to "
+        "T=14): oracle forward DP, cross-checked against brute force")
     ctx.assumptions += [
         "binary64 sums of the integer alphabets are exact (all partial sums < 2^53)",
         "numba compiles the kernel per argument signature; signatures exercised: float64 C/F table x "
@@ -311,6 +375,8 @@ def replay(ctx, c):
     table = codec.dec(c["table"])
     if c["order"] == "F":
         table = np.asfortranarray(table)
+    if c.get("dtype", "float64") != "float64":
+        table = table.astype(np.dtype(c["dtype"]))
     beta = make_beta(c["beta_kind"], c["beta"])
     K = table.shape[1]
     msg = judge(_kernel(), table, beta, K)
